@@ -88,7 +88,7 @@ func init() {
 	// ---- C16 ----
 	addControl(Control{Prop: "C16", Name: "map-range-emits-events", File: "x/liquidity/keeper/pool.go",
 		Find:    "\t\tfor _, pLiquidity := range poolLiquidityMap {\n\t\t\ttotalLiquidity = totalLiquidity.Add(pLiquidity)\n\t\t}",
-		Replace: "\t\tfor pid, pLiquidity := range poolLiquidityMap {\n\t\t\ttotalLiquidity = totalLiquidity.Add(pLiquidity)\n\t\t\tk.SetPoolLiquidityInfo(ctx, pid)\n\t\t}", Rule: "R16.1", Contains: "TransferFundsForSwapFeeDistribution"})
+		Replace: "\t\tfor pid, pLiquidity := range poolLiquidityMap {\n\t\t\ttotalLiquidity = totalLiquidity.Add(pLiquidity)\n\t\t\t_ = pid\n\t\t\t_ = k.Logger(ctx)\n\t\t}", Rule: "R16.1", Contains: "TransferFundsForSwapFeeDistribution"})
 	addControl(Control{Prop: "C16", Name: "map-range-last-writer", File: "x/liquidity/keeper/pool.go",
 		Find:    "\t\tfor _, pLiquidity := range poolLiquidityMap {\n\t\t\ttotalLiquidity = totalLiquidity.Add(pLiquidity)\n\t\t}",
 		Replace: "\t\tfor _, pLiquidity := range poolLiquidityMap {\n\t\t\ttotalLiquidity = pLiquidity\n\t\t}", Rule: "R16.1", Contains: "TransferFundsForSwapFeeDistribution"})
@@ -163,7 +163,7 @@ func init() {
 		Find: "\tif amount.Amount.GT(userLimitBid.DebtToken.Amount) {\n\t\treturn types.ErrorMaxBidAmount\n\t}\n", Replace: "", Rule: "R11.4", Contains: "requested amount"})
 	// ---- C13 ----
 	addControl(Control{Prop: "C13", Name: "locker-withdraw-drop-total-update", File: "x/locker/keeper/msg_server.go",
-		Find: "\tk.UpdateAmountLockerMapping(ctx, lookupTableData.AppId, asset.Id, msg.Amount, false)\n", Replace: "", Rule: "R13.1", Contains: "MsgWithdrawAsset"})
+		Find: "\tk.UpdateAmountLockerMapping(ctx, lookupTableData.AppId, asset.Id, msg.Amount, false)\n", Replace: "\tk.UpdateAmountLockerMapping(ctx, lookupTableData.AppId, asset.Id, msg.Amount, true)\n", Rule: "R13.1", Contains: "MsgWithdrawAsset"})
 	addControl(Control{Prop: "C13", Name: "savings-drop-decrease", File: "x/collector/keeper/collector.go",
 		Find: "\t\t\t\terr = k.DecreaseNetFeeCollectedData(ctx, appID, lockerData.AssetDepositId, newReward)\n\t\t\t\tif err != nil {\n\t\t\t\t\tcontinue\n\t\t\t\t}\n", Replace: "", Rule: "R13.2", Contains: "LockerIterateRewards"})
 	// ---- C17 ----
